@@ -17,7 +17,8 @@ CONSTANTS
   MsgMaxHeight,     \* Byzantine messages carry heights H0..MsgMaxHeight
   MaxRecv,          \* bound on message deliveries (exhaustive configurations; large = unbounded)
   NValid,           \* values 1..NValid are valid, NValid+1..MaxVal are not
-  PropShift         \* rotates the proposer schedule
+  PropShift,        \* rotates the proposer schedule
+  PowerTable        \* <<powers at H0, powers at H0+1, ...>> (cyclic): stakes change between heights
 
 VARIABLES
   st,     \* [Corr -> process state]
@@ -30,8 +31,12 @@ vars == <<st, net, dec, nrecv, obs>>
 view == <<st, net, dec, nrecv>>
 
 \* ---- substitutions for Tendermint's operator constants (see *.cfg)
-MCUnitPower == [v \in 1..NV |-> 1]
-MCPower7 == <<3, 2, 2, 1, 1, 1, 1>>
+MCPowerOf(h, v) == PowerTable[((h - H0) % Len(PowerTable)) + 1][v]
+Unit4 == << <<1, 1, 1, 1>> >>
+\* total 4 -> 8 (every stake doubles: a stale quorum of 3 would be reached by two disjoint pairs) -> 5
+Grow4 == << <<1, 1, 1, 1>>, <<2, 2, 2, 2>>, <<2, 1, 1, 1>> >>
+\* total 11 (q 8, f 3) -> 22 (q 15, f 7) -> 7 (q 5, f 2); validator 1 is the Byzantine one
+Grow7 == << <<3, 2, 2, 1, 1, 1, 1>>, <<6, 4, 4, 2, 2, 2, 2>>, <<1, 1, 1, 1, 1, 1, 1>> >>
 MCProposerOf(h, r) == ((h + r + PropShift) % NV) + 1
 MCAppValue(p, k) == ((p + k) % NValid) + 1
 MCIsValid(v) == v \in 1..NValid \/ v >= 10
@@ -139,7 +144,7 @@ KnownProps ==
           i \in {j \in DOMAIN obs.out : obs.out[j].a = "proposal"
                    /\ PropAt(obs.pre, obs.out[j].h, obs.out[j].r) = NoProp}}
 KnownPower(k, h, r, id) ==
-  SumPower({x.s : x \in {y \in KnownVotes : y.k = k /\ y.h = h /\ y.r = r /\ y.id = id}})
+  SumPower(h, {x.s : x \in {y \in KnownVotes : y.k = k /\ y.h = h /\ y.r = r /\ y.id = id}})
 
 \* the lock in force just before the i-th action of the last step
 LockBefore(i) ==
@@ -158,7 +163,7 @@ LockRule ==
       \/ \E P \in KnownProps :
            /\ P.h = a.h /\ P.r = a.r /\ P.v = a.v
            /\ lock.lr <= P.vr /\ P.vr < a.r
-           /\ KnownPower("prevote", a.h, P.vr, a.v) >= Q
+           /\ KnownPower("prevote", a.h, P.vr, a.v) >= Q(a.h)
 
 \* a prevote for a value only for the round's valid proposal; a precommit for a value only on a
 \* quorum of prevotes for it in that round
@@ -168,11 +173,13 @@ VotesJustified ==
     /\ (a.a = "prevote" /\ a.v # Nil) =>
          (MCIsValid(a.v) /\ \E P \in KnownProps : P.h = a.h /\ P.r = a.r /\ P.v = a.v)
     /\ (a.a = "precommit" /\ a.v # Nil) =>
-         (KnownPower("prevote", a.h, a.r, a.v) >= Q
+         (KnownPower("prevote", a.h, a.r, a.v) >= Q(a.h)
           /\ \E P \in KnownProps : P.h = a.h /\ P.r = a.r /\ P.v = a.v)
-    /\ a.a = "commit" => KnownPower("precommit", a.h, a.r, a.v) >= Q
+    /\ a.a = "commit" => KnownPower("precommit", a.h, a.r, a.v) >= Q(a.h)
 
 \* sanity: the thresholds satisfy what the safety argument needs (see Quorum.tla)
-ThresholdsOK == 2 * Q - TotalPower >= F + 1 /\ Q <= TotalPower - F /\ SumPower(Byz) <= F
+ThresholdsOK ==
+  \A h \in H0..MsgMaxHeight :
+    2 * Q(h) - TotalPower(h) >= F(h) + 1 /\ Q(h) <= TotalPower(h) - F(h) /\ SumPower(h, Byz) <= F(h)
 
 =============================================================================
